@@ -178,13 +178,21 @@ PROPS = {
         'claim': 'Fiber.propagate with the Raman computation off attenuates every channel by exactly att_in + con_in + '
                  'loss_coef x length + lumped losses + con_out (dB) = Fiber.loss; CD and latency add, PMD adds in quadrature, '
                  'PDL untouched; the attenuation profile equals exp(-alpha L) x lumped losses with alpha = loss_coef / '
-                 '(10 log10 e); ROADM and amplifier PMD/PDL in quadrature (C06/C04 contracts).',
-        'level_note': 'scalar loss coefficient (per-frequency tables go through an interpolation that is not modelled); '
-                      '_create_lumped_losses + cumprod is an assumed contract checked bounded (it fails for two lumped '
-                      'losses at one position: known finding F7). Raman-on clauses (low-power limit, perturbative vs '
-                      'numerical, pumps only add gain) are statements about numerical ODE solvers: not claimed.',
-        'trusted': NUMPY_TRUST + ['exp/log/db2lin axioms (ground instances)', 'RamanSolver._create_lumped_losses + numpy.cumprod'],
-        'extra': [{'name': 'lumped_losses', 'kind': 'bounded', 'script': 'bounded/lumped_losses.py'}],
+                 '(10 log10 e); the accumulated dispersion of a span is D(f) x length with D from beta2 / beta3, beta2 from the '
+                 'fibre\'s dispersion and slope; RamanFiber.propagate applies padding + input connector before and the output '
+                 'connector after the Raman solver\'s profile and adds its ASE once; ROADM and amplifier PMD/PDL in quadrature '
+                 '(C06/C04 contracts).',
+        'level_note': 'scalar loss coefficient and scalar dispersion (per-frequency tables go through an interpolation that is not '
+                      'modelled); _create_lumped_losses + cumprod is an assumed contract checked bounded (it fails for two lumped '
+                      'losses at one position: known finding F7). The Raman-on clauses (low-power limit, perturbative vs numerical, '
+                      'pumps only add gain, lumped losses once) are statements about numerical ODE solvers: the solver calls are '
+                      'opaque in the RamanFiber proof and those clauses are a bounded stand-in (6 channels, span lengths off the '
+                      'solver grid, orders 1-3, three steps, stated tolerances), not proved.',
+        'trusted': NUMPY_TRUST + ['exp/log/db2lin axioms (ground instances)', 'RamanSolver._create_lumped_losses + numpy.cumprod',
+                                  'RamanSolver.calculate_stimulated/spontaneous_raman_scattering (opaque in RamanFiber.propagate)',
+                                  'Fiber.beta3, Fiber.gamma (assumed pure per-channel coefficients)'],
+        'extra': [{'name': 'lumped_losses', 'kind': 'bounded', 'script': 'bounded/lumped_losses.py'},
+                  {'name': 'raman', 'kind': 'bounded', 'script': 'bounded/raman.py', 'timeout': 1800}],
     },
     'C11': {
         'level': 'other',
